@@ -121,6 +121,10 @@ func runC16(p *core.Program, r *core.Report) {
 				checkFilterAllOf(p, r, g, "R2.5")
 			}
 		})
+		// … and the figure a preset reports is the character recipe's Entropy(): the exact count over
+		// the alphabet the generator draws from (= C07 re-run; a short cut that sizes the alphabet
+		// differently from the builder makes the preset's figure wrong)
+		r.Borrow("R16.3", func() { runC07(p, r) })
 	}
 
 	// ---- R16.1
